@@ -17,7 +17,8 @@ CASE_TIMEOUT_S = 600
 STUBS = ['pathos ParallelPool -> SimPool', 'cli.common.signal -> FakeSignal (never fires in this engine)']
 PROBES = ['corpus_case', 'step_cap_discarded', 'fault_entry', 'fault_mid_unit', 'fault_gather', 'multi_fault', 'all_units_of_tx', 'every_unit',
           'threads_gt_1', 'fusion_unit_failed', 'circ_unit_failed', 'main_unit_failed', 'absorbed',
-          'abort_checked', 'later_unit_after_failed_unit', 'parser_rows_case']
+          'abort_checked', 'later_unit_after_failed_unit', 'parser_rows_case', 'natural_case',
+          'natural_unit_failed', 'natural_with_surviving_units']
 RULE = ('case = generated reference + records (mix biased to fusions/circRNAs so transcripts have several units); '
         'fault plan = non-empty subset of processing units (main / fusion / circRNA / data gathering), each '
         'failing at entry with an ordinary exception class or at the k-th line event inside the unit; threads '
@@ -43,9 +44,101 @@ def n_cases(tier):
 def tasks(seed, tier, n):
     ts = []
     for i in range(n):
-        mode = 'parser' if i % 7 in (3, 6) else 'main'
+        mode = 'parser' if i % 7 in (3, 6) else 'natural' if i % 7 == 5 else 'main'
         ts.append({'case': i, 'mode': 'main', 'kind': mode, 'hclass': i % 4})
     return ts
+
+
+# cleavage rules under which the graph code of the pinned tree raises IndexError in most units (DESIGN 3.3): useless
+# as a fault-free workload, but a source of units that fail BY THEMSELVES, deep inside the real code
+NATURAL_RULES = ['lysc', 'arg-c', 'cnbr', 'clostripain', 'formic acid', 'glutamyl endopeptidase', 'proteinase k',
+                 'bnps-skatole', 'iodosobenzoic acid', 'staphylococcal peptidase i']
+
+
+def run_natural(seed, task, tier):
+    """Units that fail without injection.  A = --skip-failed (failing units recorded by the unit wrappers);
+    B = the same units replaced by the repository's empty return; A' = without the flag."""
+    idx = task['case']
+    rng = R.case_rng(seed, ENGINE, idx, 'natural')
+    cfg = cvcase.gen_config(rng)
+    cfg.update(cleavage_rule=rng.choice(NATURAL_RULES), cleavage_exception=None, miscleavage=rng.choice([0, 1, 2]),
+               noncanonical_transcripts=False)
+    case = cvcase.gen_case(rng, config=cfg, mix=MIX, n_genes=rng.randint(3, 6))
+    threads = rng.choice([1, 1, 2, 3])
+    sched = {'pool_seed': rng.getrandbits(32), 'salt': rng.choice([0, rng.getrandbits(30) | 1])}
+    out = {'executions': 0, 'signatures': [], 'violations': [], 'probes': {'natural_case': 1}, 'faults': {}, 'steps': 0}
+    with cvcase.Scratch('c07n_') as wd:
+        res, info = judge_natural(case, wd, threads, sched)
+        out['executions'] += info.get('executions', 1)
+        if res is None:
+            out['invalid'] = True
+            out['invalid_reason'] = info.get('invalid')
+            return out
+        for key, exc in info['failed']:
+            k = f"{key.split('|')[0]}:natural:{exc}"
+            out['faults'][k] = out['faults'].get(k, 0) + 1
+        out['probes']['natural_unit_failed'] = len(info['failed'])
+        if info.get('survivors'):
+            out['probes']['natural_with_surviving_units'] = 1
+        out['signatures'].append({'rule': cfg['cleavage_rule'], 'threads': threads,
+                                  'failed_kinds': sorted({k.split('|')[0] for k, _ in info['failed']}),
+                                  'survivors': bool(info.get('survivors'))})
+        for clause, sig, detail in res:
+            rep = {'property': PROPERTY, 'engine': ENGINE, 'clause': clause, 'signature': sig, 'detail': detail,
+                   'seed': seed, 'case': idx, 'hclass': task['hclass'],
+                   'hashseed': driver.HASH_CLASSES[task['hclass']], 'case_data': case, 'natural': True,
+                   'threads': threads, 'sched': sched}
+            rep['digest'] = R.digest([seed, idx, clause, 'natural'])
+            out['violations'].append(rep)
+    out['sample'] = {'case': idx, 'natural': True, 'config': cfg, 'stats': case['stats'], 'threads': threads,
+                     'failed_units': info['failed'][:8]}
+    return out
+
+
+def judge_natural(case, wd, threads, sched):
+    a = execute(case, wd, 'a', threads, sched, True)
+    info = {'executions': 1, 'failed': list(a.natural_failed)}
+    if a.wall_capped:
+        return None, dict(info, invalid='wall budget')
+    if not a.natural_failed:
+        return None, dict(info, invalid='no unit failed by itself')
+    out = []
+    failed = sorted({k for k, _ in a.natural_failed})
+    kinds_tag = '+'.join(sorted({k.split('|')[0] for k in failed}))
+    excs = '+'.join(sorted({e for _, e in a.natural_failed}))
+    if not a.ok:
+        out.append(('completes', f'completes:natural:{a.exc[0]}:{kinds_tag}',
+                    {'exc': a.exc, 'tb': (a.exc_tb or '')[-700:], 'failed_units': failed[:6], 'unit_exceptions': excs}))
+    else:
+        b = execute(case, wd, 'b', threads, sched, True, skip_units=set(failed))
+        info['executions'] += 1
+        if b.ok and not b.natural_failed:
+            info['survivors'] = bool(b.fasta)
+            sa, sb = set(a.fasta), set(b.fasta)
+            if sa != sb:
+                out.append(('isolation', f'isolation:natural:{"lost" if sb - sa else ""}{"gained" if sa - sb else ""}:'
+                            f'{kinds_tag}',
+                            {'only_failing_run': sorted(sa - sb)[:5], 'only_clean_skip': sorted(sb - sa)[:5],
+                             'failed_units': failed[:6], 'unit_exceptions': excs}))
+            t = a.tally
+            if t is not None:
+                got = dict(t.n_transcripts_failed)
+                exp_lo, exp_hi = {}, {}
+                for kind in ('variant', 'fusion', 'circRNA'):
+                    us = [u for u in failed if u.startswith(kind + '|')]
+                    exp_lo[kind] = len({u.split('|')[1] for u in us})
+                    exp_hi[kind] = len(us)
+                bad = {k: (got[k], exp_lo[k], exp_hi[k]) for k in got if not exp_lo[k] <= got[k] <= exp_hi[k]}
+                if bad:
+                    out.append(('tally', f'tally:natural:{"+".join(sorted(bad))}:{kinds_tag}',
+                                {'tally_failed': got, 'expected_lo': exp_lo, 'expected_hi': exp_hi}))
+    a2 = execute(case, wd, 'a2', threads, sched, False)
+    info['executions'] += 1
+    if not a2.wall_capped and a2.natural_failed and (a2.ok or a2.fasta_exists):
+        out.append(('abort', f'abort:natural:{"completed" if a2.ok else "fasta-left"}:{kinds_tag}',
+                    {'completed': a2.ok, 'fasta_exists': a2.fasta_exists,
+                     'failed_without_flag': [k for k, _ in a2.natural_failed][:5]}))
+    return out, info
 
 
 def gen(seed, idx):
@@ -220,6 +313,8 @@ def fault_signature(a, faults, threads):
 def run_case(seed, task, tier):
     if task.get('kind') == 'parser':
         return parser_rows.run_case(seed, task, tier, PROPERTY)
+    if task.get('kind') == 'natural':
+        return run_natural(seed, task, tier)
     idx = task['case']
     case, rng = gen(seed, idx)
     out = {'executions': 0, 'signatures': [], 'violations': [], 'probes': {}, 'faults': {}, 'steps': 0}
@@ -297,6 +392,10 @@ def replay(rep):
     if rep.get('engine') == 'parser-rows':
         return parser_rows.replay(rep)
     case = rep['case_data']
+    if rep.get('natural'):
+        with cvcase.Scratch('c07nr_') as wd:
+            res, _ = judge_natural(case, wd, rep['threads'], rep['sched'])
+        return [dict(rep, clause=c, signature=s, detail=d) for c, s, d in (res or [])]
     with cvcase.Scratch('c07r_') as wd:
         f0, a, b, a2, bad = run_plan(case, wd, rep['faults'], rep['threads'], rep['sched'])
         if bad is not None or a.fault_absorbed or not a.fault_fired:
@@ -314,6 +413,15 @@ def replay(rep):
 def shrink_candidates(rep):
     if rep.get('engine') == 'parser-rows':
         yield from parser_rows.shrink_candidates(rep)
+        return
+    if rep.get('natural'):
+        case = rep['case_data']
+        for is_circ, key in ((False, 'var_lines'), (True, 'circ_lines')):
+            for i in range(len(case[key]) - 1, -1, -1):
+                new_case, _ = cvcase.drop_line(case, [], is_circ, i)
+                yield dict(rep, case_data=new_case)
+        if rep['threads'] > 1:
+            yield dict(rep, threads=1)
         return
     case, faults = rep['case_data'], rep['faults']
     if len(faults) > 1:
